@@ -332,6 +332,8 @@ def check(run: Run) -> None:
     _check_dict_attr_type(run, ctx, tt)
     run.rule("C08.R7", "dictionary literals are typed whenever their keys can be dataclass fields (shared with C07.R7 / C10.R3)")
     check_dict_typing(run, TermCtx(m, max_depth=1, opaque={"lookup_type", "remap_by_types"}), m, tt, "C08.R7")
+    check_iterable_test(run, m, "C08.R12")
+    check_nested_lambda_followed(run, m, tt, "C08.R13")
 
 
 def _check_typevar_pairing(run: Run, m) -> None:
@@ -713,3 +715,59 @@ def _check_reparameterise(run: Run, m) -> None:
         over_args = contains(idx, lambda q: q[0] == "comp" and any(contains(it, lambda z: (z[0] == "app" and z[1][0] == "global" and z[1][1].endswith("get_args")) or (z[0] == "attr" and z[2] == "__args__")) for it, _c in q[3]))
         run.check(over_params and not over_args, "C08.R11", rt, stmt_of(node), "the alias is subscripted with its resolved type variables", f"_resolve_type subscripts the generic alias with {show(idx)[:120]}: one entry per *argument* of t instead of one per free type variable - a nested annotation such as Iterable[Iterable[T]] gains a level, Dict[str, T] raises TypeError", "t[tuple(_resolve_type(p, parameters) for p in t.__parameters__)]", show(idx)[:300], key="alias re-parameterised with its arguments")
     run.floor("C08.R11", n, 1, "re-parameterisations in _resolve_type")
+
+
+def check_iterable_test(run: Run, m, rule: str) -> None:
+    """Whether a type is a sequence is a question about its bases (a parameterised Iterable up the chain); what the
+    elements are is another one. An `is_iterable` that answers through the element type (unwrap_iterable(t) is not Any,
+    get_args(..)[0] ..) says "no" for Iterable[Any]: a sequence of unknown items is then no sequence, its operators get
+    no collection class, and the lambdas handed to them are not followed (types, defaults, callbacks inside are lost)."""
+    from ..lib import unit
+
+    run.rule(rule, "is_iterable decides from the chain of bases alone (a parameterised Iterable is reached), never from the element type")
+    fi = m.find_func("is_iterable", in_module="func_adl.util_types")
+    n_ret = 0
+    for f in unit(m, fi):
+        for c in calls_in(f):
+            nm = ast.unparse(c.func).split(".")[-1]
+            if nm in ("unwrap_iterable", "get_args") or (nm == "getattr" and len(c.args) >= 2 and isinstance(c.args[1], ast.Constant) and c.args[1].value == "__args__"):
+                run.fail(rule, f, stmt_of(c), f"is_iterable answers through {nm}(..), i.e. through the element type: Iterable[Any] - a sequence whose items are not typed - counts as not iterable, so its Select / Where / SelectMany are not followed", "walk get_inherited until _is_iterable_direct; return t is not Any", key="iterable test reads the element type")
+        for n in own_nodes(f):
+            if isinstance(n, ast.Attribute) and n.attr == "__args__":
+                run.fail(rule, f, stmt_of(n), "is_iterable reads __args__ (the element type)", key="iterable test reads the element type")
+            if isinstance(n, ast.Return):
+                n_ret += 1
+    run.floor(rule, n_ret, 1, "returns of is_iterable")
+    run.ok(rule, fi, "is_iterable does not consult the element type")
+
+
+def check_nested_lambda_followed(run: Run, m, tt, rule: str) -> None:
+    """process_method_call_on_stream_obj: whatever it hands back as the type of a collection operator comes from calling that
+    operator on the stand-in stream - which is what follows the nested lambda (types of its body, call normalisation,
+    callbacks). A result made up without that call (because the item type is unknown, because .. ) skips all of it."""
+    run.rule(rule, "every result of process_method_call_on_stream_obj derives from the call of the collection method on the stand-in stream (the nested lambda is followed whatever the item type)")
+    f = tt.methods.get("process_method_call_on_stream_obj")
+    if f is None:
+        raise AnalysisError("anchor vanished: type_transformer.process_method_call_on_stream_obj")
+    from ..lib import view
+
+    f = view(m, f)
+    ctx = TermCtx(m, max_depth=1, opaque={"lookup_type", "fixup_ast_from_modifications", "scan_for_metadata"})
+    fa = ctx.analysis(f)
+    n = 0
+
+    def from_call(t) -> bool:
+        return contains(t, lambda q: q[0] == "app" and isinstance(q[1], tuple) and q[1][0] == "app" and q[1][1] == ("global", "builtins.getattr") and len(q[1][2]) >= 2 and contains(q[1][2][0], lambda z: z[0] == "attr" and z[2] == "obj_type"))
+
+    for s, nd in fa.returns():
+        if s.value is None or (isinstance(s.value, ast.Constant) and s.value.value is None):
+            continue
+        n += 1
+        t = strip_sites(fa.term_of(s.value, nd))
+        alts = unphi_terms(t)
+        for a in alts:
+            if a == ("const", None):
+                continue
+            ty = a[1][1] if a[0] == "tuple" and len(a[1]) == 2 else a
+            run.check(from_call(ty), rule, f, s, "the type handed back comes from the collection method's result", f"process_method_call_on_stream_obj hands back {show(ty)[:100]} without having called the collection method on the stand-in stream: the lambda given to the nested Select / Where / SelectMany is not followed (its body gets no types, its calls no defaults, its callbacks do not fire), and a non-boolean nested filter is no longer refused", "r = getattr(obj_type(..), name)(lambda, known_types=..); return call_node, Iterable[r.item_type]", show(a)[:300], key="nested operator result not from the collection method")
+    run.floor(rule, n, 2, "results of process_method_call_on_stream_obj")
